@@ -38,6 +38,9 @@ func initKF() {
 	if kf.Activate("KF-C01-di-default-true-bools", changed) {
 		genOff["di-default-true-bools"] = true
 	}
+	if kf.Activate("KF-C01-attrgroup-redefinition", changed) {
+		genOff["noise-split-attrgroups"] = true
+	}
 	if kf.Activate("KF-C01-dwarfAddressSpace-zero", changed) {
 		genOff["di-dwarfAddressSpace-zero"] = true
 	}
